@@ -106,6 +106,7 @@ func reachXs(v reflect.Value, out *[]int) {
 func reachReplay(args []string) int {
 	fs := flag.NewFlagSet("reach", flag.ExitOnError)
 	fs.Int64("seed", 1, "seed")
+	repeat := fs.Int("repeat", 4, "repetitions of every case (the outcome must not depend on the runtime's map order)")
 	fs.Parse(args)
 	rep := newReporter("reach")
 	runCases(func(raw []byte, rep *reporter) {
@@ -118,86 +119,99 @@ func reachReplay(args []string) int {
 		rep.nontrivial(raw)
 		var got []int
 		var errText string
-		panicked, msg := guard(func() {
-			// the wrapper type and its pre-filled value
-			coll, form := "", c.W
-			switch {
-			case strings.HasPrefix(c.W, "PL"):
-				coll, form = "PL", c.W[2:]
-			case strings.HasPrefix(c.W, "L"), strings.HasPrefix(c.W, "A"), strings.HasPrefix(c.W, "M"):
-				coll, form = c.W[:1], c.W[1:]
-			}
-			et := reachElemType(form)
-			var wt reflect.Type
-			switch coll {
-			case "":
-				wt = et
-			case "L":
-				wt = reflect.SliceOf(et)
-			case "PL":
-				wt = reflect.PtrTo(reflect.SliceOf(et))
-			case "A":
-				wt = reflect.ArrayOf(2, et)
-			case "M":
-				wt = reflect.MapOf(reflect.TypeOf(""), et)
-			}
-			st := reflect.New(reflect.StructOf([]reflect.StructField{
-				{Name: "Name", Type: reflect.TypeOf(""), Tag: `config:"name"`},
-				{Name: "W", Type: wt, Tag: `config:"w"`},
-			})).Elem()
-			if !c.Def.Nil {
-				w := st.Field(1)
+		outcomes := map[string]bool{}
+		var panicked bool
+		var msg string
+		for k := 0; k < *repeat && !panicked; k++ {
+			got, errText = nil, ""
+			panicked, msg = guard(func() {
+				// the wrapper type and its pre-filled value
+				coll, form := "", c.W
+				switch {
+				case strings.HasPrefix(c.W, "PL"):
+					coll, form = "PL", c.W[2:]
+				case strings.HasPrefix(c.W, "L"), strings.HasPrefix(c.W, "A"), strings.HasPrefix(c.W, "M"):
+					coll, form = c.W[:1], c.W[1:]
+				}
+				et := reachElemType(form)
+				var wt reflect.Type
 				switch coll {
 				case "":
-					w.Set(reachElem(form, c.Def.Xs[0]))
-				case "L", "PL":
-					sl := reflect.MakeSlice(reflect.SliceOf(et), 0, 2)
-					for _, x := range c.Def.Xs {
-						sl = reflect.Append(sl, reachElem(form, x))
-					}
-					if coll == "PL" {
-						p := reflect.New(sl.Type())
-						p.Elem().Set(sl)
-						sl = p
-					}
-					w.Set(sl)
+					wt = et
+				case "L":
+					wt = reflect.SliceOf(et)
+				case "PL":
+					wt = reflect.PtrTo(reflect.SliceOf(et))
 				case "A":
-					for i, x := range c.Def.Xs {
-						w.Index(i).Set(reachElem(form, x))
-					}
+					wt = reflect.ArrayOf(2, et)
 				case "M":
-					m := reflect.MakeMap(wt)
-					for i, x := range c.Def.Xs {
-						m.SetMapIndex(reflect.ValueOf(fmt.Sprintf("k%d", i)), reachElem(form, x))
+					wt = reflect.MapOf(reflect.TypeOf(""), et)
+				}
+				st := reflect.New(reflect.StructOf([]reflect.StructField{
+					{Name: "Name", Type: reflect.TypeOf(""), Tag: `config:"name"`},
+					{Name: "W", Type: wt, Tag: `config:"w"`},
+				})).Elem()
+				if !c.Def.Nil {
+					w := st.Field(1)
+					switch coll {
+					case "":
+						w.Set(reachElem(form, c.Def.Xs[0]))
+					case "L", "PL":
+						sl := reflect.MakeSlice(reflect.SliceOf(et), 0, 2)
+						for _, x := range c.Def.Xs {
+							sl = reflect.Append(sl, reachElem(form, x))
+						}
+						if coll == "PL" {
+							p := reflect.New(sl.Type())
+							p.Elem().Set(sl)
+							sl = p
+						}
+						w.Set(sl)
+					case "A":
+						for i, x := range c.Def.Xs {
+							w.Index(i).Set(reachElem(form, x))
+						}
+					case "M":
+						m := reflect.MakeMap(wt)
+						for i, x := range c.Def.Xs {
+							m.SetMapIndex(reflect.ValueOf(fmt.Sprintf("k%d", i)), reachElem(form, x))
+						}
+						w.Set(m)
 					}
-					w.Set(m)
 				}
-			}
-			in := map[string]interface{}{"name": "n"}
-			switch c.Set {
-			case "nil":
-				in["w"] = nil
-			case "obj-y":
-				in["w"] = map[string]interface{}{"y": 7}
-			case "first":
-				if coll == "M" {
-					in["w"] = map[string]interface{}{"k0": map[string]interface{}{"x": 5}}
-				} else {
-					in["w"] = []interface{}{map[string]interface{}{"x": 5}}
+				in := map[string]interface{}{"name": "n"}
+				switch c.Set {
+				case "nil":
+					in["w"] = nil
+				case "obj-y":
+					in["w"] = map[string]interface{}{"y": 7}
+				case "null-new":
+					in["w"] = map[string]interface{}{"fresh": nil, "other": "o"}
+				case "first":
+					if coll == "M" {
+						in["w"] = map[string]interface{}{"k0": map[string]interface{}{"x": 5}}
+					} else {
+						in["w"] = []interface{}{map[string]interface{}{"x": 5}}
+					}
 				}
-			}
-			cfg, err := ucfg.NewFrom(in, ucfg.PathSep("."))
-			if err != nil {
-				errText = "build: " + err.Error()
-				return
-			}
-			if err := cfg.Unpack(st.Addr().Interface(), ucfg.PathSep(".")); err != nil {
-				errText = err.Error()
-				return
-			}
-			got = []int{}
-			reachXs(st.Field(1), &got)
-		})
+				cfg, err := ucfg.NewFrom(in, ucfg.PathSep("."))
+				if err != nil {
+					errText = "build: " + err.Error()
+					return
+				}
+				if err := cfg.Unpack(st.Addr().Interface(), ucfg.PathSep(".")); err != nil {
+					errText = err.Error()
+					return
+				}
+				got = []int{}
+				reachXs(st.Field(1), &got)
+			})
+			outcomes[fmt.Sprint(got, errText != "")] = true
+		}
+		if len(outcomes) > 1 {
+			rep.violate("reach-order-dependent", raw, fmt.Sprint(outcomes), "one outcome for every repetition", "the outcome of Unpack depends on the order in which the runtime enumerates a map")
+			return
+		}
 		if panicked {
 			rep.violate("reach-panic", raw, msg, "returns", "")
 			return
